@@ -1,7 +1,11 @@
 import Bmc.Proofs.C16
 import Bmc.Proofs.GenDec.CipherSuiteRecords
+import Bmc.Proofs.GenOrch.GetEntityInstances
+import Bmc.Proofs.GenOrch.GetSensorMap
 import Bmc.Proofs.GenOrch.CountRecordIDs
+import Bmc.Proofs.GenOrch.GetSensorInfo
 import Bmc.Proofs.GenOrch.RetrieveSupportedCipherSuites
+import Bmc.Proofs.EndToEnd.EnumC16
 #print axioms Bmc.Proofs.C16.parse_encode
 #print axioms Bmc.Proofs.C16.parse_total
 #print axioms Bmc.Proofs.C16.parse_sound
@@ -26,7 +30,21 @@ import Bmc.Proofs.GenOrch.RetrieveSupportedCipherSuites
 #print axioms Bmc.Proofs.C16.sensorInfo_err
 #print axioms Bmc.Proofs.GenDec.parseCipherSuiteRecordData_gen_eq
 #print axioms Bmc.Proofs.GenDec.parseCipherSuiteRecordData_fuel
+#print axioms Bmc.Proofs.GenOrch.getEntityInstances_gen_eq
+#print axioms Bmc.Proofs.GenOrch.getEntityInstances_fuel
+#print axioms Bmc.Proofs.GenOrch.getEntityInstances_fuel_any
+#print axioms Bmc.Proofs.GenOrch.getSensorMap_gen_eq
+#print axioms Bmc.Proofs.GenOrch.getSensorMap_fuel_any
 #print axioms Bmc.Proofs.GenOrch.CountRecordIDs_gen_eq
+#print axioms Bmc.Proofs.GenOrch.ipmiSensorEntityIDs_gen_eq
+#print axioms Bmc.Proofs.GenOrch.dcmiSensorEntityIDs_gen_eq
+#print axioms Bmc.Proofs.GenOrch.GetSensorInfo_gen_eq
+#print axioms Bmc.Proofs.GenOrch.GetSensorInfo_fuel
+#print axioms Bmc.Proofs.GenOrch.GetSensorInfo_fuel_any
 #print axioms Bmc.Proofs.GenOrch.RetrieveSupportedCipherSuites_gen_eq
 #print axioms Bmc.Proofs.GenOrch.RetrieveSupportedCipherSuites_fuel
 #print axioms Bmc.Proofs.GenOrch.RetrieveSupportedCipherSuites_fuel_any
+#print axioms Bmc.Proofs.EndToEnd.retrieveSupportedCipherSuites_congr
+#print axioms Bmc.Proofs.EndToEnd.generated_RetrieveSupportedCipherSuites_complete
+#print axioms Bmc.Proofs.EndToEnd.instLoop_congr
+#print axioms Bmc.Proofs.EndToEnd.generated_getEntityInstances_pages
